@@ -53,6 +53,8 @@ Viol(e) ==
          ELSE IF e.m \in polled THEN "configured value written after the first poll"
          ELSE IF ready THEN "configured value written after the ready report"
          ELSE IF e.v # Exp(cfgof[e.m]).writes[e.p] THEN "value handed to write_<p> not the configured one"
+         ELSE IF \E q \in (Consumes(e.p) \ {e.p}) \cap WriteSet(cfgof[e.m]) :      \* (also when q was written before)
+                    e.vals[q] # Exp(cfgof[e.m]).writes[q].n THEN "common write sends a value that is not the configured one"
          ELSE ""
     [] e.ev = "poll" ->
          IF e.m \notin started THEN "poll before start"
